@@ -23,6 +23,7 @@ matter (variables are identified by the role they are bound in); any other shape
 from __future__ import annotations
 
 import ast
+import copy
 from pathlib import Path
 
 
@@ -296,17 +297,29 @@ def t_cell_to_dict(tree):
             if not (isinstance(t, ast.Call) and is_name(t.func, "isinstance") and len(t.args) == 2
                     and is_name(t.args[0], cell) and is_name(t.args[1], "IncrementalCell")):
                 fail("_cell_to_dict", t, "expected isinstance(<cell>, IncrementalCell)")
-            if len(st.body) != 1 or not isinstance(st.body[0], ast.Expr):
-                fail("_cell_to_dict", st, "expected a single <dict>.update({...})")
-            c = call_of(st.body[0].value, "_cell_to_dict", 1)
-            ch = attr_chain(c.func)
-            if not ch or len(ch) != 2 or ch[1] != "update" or ch[0] not in dicts or not isinstance(c.args[0], ast.Dict):
-                fail("_cell_to_dict", c, "expected <dict>.update({...})")
-            for k, v in zip(c.args[0].keys, c.args[0].values):
+            # `<dict>.update({k: v, ...})` and `<dict>[k] = v` (one or several) are the same thing
+            pairs, targets = [], set()
+            for b in st.body:
+                if isinstance(b, ast.Expr) and isinstance(b.value, ast.Call):
+                    c = call_of(b.value, "_cell_to_dict", 1)
+                    ch = attr_chain(c.func)
+                    if not ch or len(ch) != 2 or ch[1] != "update" or ch[0] not in dicts or not isinstance(c.args[0], ast.Dict):
+                        fail("_cell_to_dict", c, "expected <dict>.update({...}) or <dict>[key] = value")
+                    pairs += list(zip(c.args[0].keys, c.args[0].values))
+                    targets.add(ch[0])
+                elif (isinstance(b, ast.Assign) and len(b.targets) == 1 and isinstance(b.targets[0], ast.Subscript)
+                      and isinstance(b.targets[0].value, ast.Name) and b.targets[0].value.id in dicts):
+                    pairs.append((b.targets[0].slice, b.value))
+                    targets.add(b.targets[0].value.id)
+                else:
+                    fail("_cell_to_dict", b, "expected <dict>.update({...}) or <dict>[key] = value")
+            if len(targets) != 1 or not pairs:
+                fail("_cell_to_dict", st, "the IncrementalCell keys must go into one dict")
+            for k, v in pairs:
                 a, fmt = strftime_of(v, cell, "_cell_to_dict")
                 fmts.add(fmt)
                 prev_out.append((const_str(k, "_cell_to_dict"), a))
-            target = ch[0]
+            target = targets.pop()
         elif isinstance(st, ast.Return):
             ret = st.value
         else:
@@ -413,7 +426,57 @@ def t_parse_cell_set(tree):
     return table, subscript_key(it, obj, "_parse_cell_set")
 
 
+class _SubstNames(ast.NodeTransformer):
+    def __init__(self, env):
+        self.env = env
+
+    def visit_Name(self, n):
+        if isinstance(n.ctx, ast.Load) and n.id in self.env:
+            return copy.deepcopy(self.env[n.id])
+        return n
+
+
+def inline_helper(e, cls_node, self_name, depth=0):
+    """`self.h(a, b)` / `Cls.h(a, b)` where h is a method / staticmethod of the class whose body is a single
+    `return <expr>` over plain positional parameters  ->  <expr> with the arguments substituted (pure argument
+    expressions only: names, attributes, constants, subscripts).  Anything else is returned unchanged."""
+    if not (isinstance(e, ast.Call) and isinstance(e.func, ast.Attribute) and isinstance(e.func.value, ast.Name)
+            and e.func.value.id in (self_name, cls_node.name) and not e.keywords and depth < 3):
+        return e
+    hs = [n for n in cls_node.body if isinstance(n, ast.FunctionDef) and n.name == e.func.attr]
+    if len(hs) != 1:
+        return e
+    h = hs[0]
+    b = body_of(h)
+    a = h.args
+    if (len(b) != 1 or not isinstance(b[0], ast.Return) or b[0].value is None or a.vararg or a.kwarg or a.kwonlyargs
+            or a.defaults or a.posonlyargs):
+        return e
+    static = any(isinstance(d, ast.Name) and d.id == "staticmethod" for d in h.decorator_list)
+    if any(not ((isinstance(d, ast.Name) and d.id == "staticmethod")) for d in h.decorator_list):
+        return e
+    ps = [x.arg for x in a.args]
+    env = {}
+    if not static:
+        if not ps or e.func.value.id != self_name:
+            return e
+        env[ps[0]] = ast.Name(id=self_name, ctx=ast.Load())
+        ps = ps[1:]
+    if len(ps) != len(e.args):
+        return e
+    for arg in e.args:
+        for n in ast.walk(arg):
+            if not isinstance(n, (ast.Name, ast.Attribute, ast.Constant, ast.Subscript, ast.Load)):
+                return e
+    env.update(dict(zip(ps, e.args)))
+    if len(set(env)) != len(env):
+        return e
+    out = _SubstNames(env).visit(copy.deepcopy(b[0].value))
+    return inline_helper(out, cls_node, self_name, depth + 1)
+
+
 def t_parse_observation(tree):
+    cls_node = [n for n in tree.body if isinstance(n, ast.ClassDef) and n.name == "TriangleDecoder"][0]
     fn = find_func(tree, "_parse_observation", "TriangleDecoder")
     self_, obj = params(fn)
     b = body_of(fn)
@@ -454,8 +517,8 @@ def t_parse_observation(tree):
                 continue
             if kw.arg not in DATTR:
                 fail("_parse_observation", c, f"unknown keyword {kw.arg}")
-            # datetime.datetime.strptime(obj[key], self.date_format).date()
-            d = call_of(kw.value, "_parse_observation", 0)
+            # datetime.datetime.strptime(obj[key], self.date_format).date(), possibly through a one-line helper
+            d = call_of(inline_helper(kw.value, cls_node, self_), "_parse_observation", 0)
             if not (isinstance(d.func, ast.Attribute) and d.func.attr == "date"):
                 fail("_parse_observation", kw.value, "expected strptime(...).date()")
             s = call_of(d.func.value, "_parse_observation", 2)
